@@ -123,6 +123,7 @@ Inductive xform : Set :=
 | XSetSeq (n : Z)
 | XSetType (t : Z)
 | XSetCert (c : tm)
+| XAppendCert (c : tm)            (* chain := chain ++ [c] *)
 | XSetRandom (r : tm)
 | XSetSid (s : tm)
 | XSetPub (p : tm)
@@ -136,6 +137,7 @@ Inductive xform : Set :=
 Definition xf_body (x : xform) (b : body tm) : body tm :=
   match x, b with
   | XSetCert c, BCertificate _ => BCertificate [c]
+  | XAppendCert c, BCertificate l => BCertificate (l ++ [c])
   | XSetRandom r, BClientHello _ k e p => BClientHello r k e p
   | XSetRandom r, BServerHello _ s e p => BServerHello r s e p
   | XSetSid s, BServerHello r _ e p => BServerHello r s e p
